@@ -715,6 +715,11 @@ def compare_fill(e, a, bbox, unit_tol, palette_check=None):
         if L2 > 1e-9:
             L = min(L, cross / L2)
         tol = 0.01 + 3.0 * unit_tol / max(L, 1e-6)
+        if 3.0 * unit_tol >= L:
+            # the colour line is shorter than the displacement its points may suffer (outline quantisation seen through a
+            # large reuse scale): its direction, even its being degenerate, is within the allowed error; stops and
+            # extend mode were compared above
+            return probs
         for x in samples:
             te, ta = _lin_t(*ep, x), _lin_t(*ap, x)
             if te is None or ta is None:
